@@ -130,6 +130,20 @@ impl<D: DataRef, BRT: BlindRotationAlgo> WriterTo for BlindRotationKeyCompressed
     }
 }
 
+/// Verification hook (cargo feature `verif-hooks`): read access to the recorded secret distribution
+/// and to the compressed GGSW elements, so that a harness can compare a receiver before and after
+/// `read_from`.
+#[cfg(feature = "verif-hooks")]
+impl<D: Data, BRT: BlindRotationAlgo> BlindRotationKeyCompressed<D, BRT> {
+    pub fn verif_dist(&self) -> &Distribution {
+        &self.dist
+    }
+
+    pub fn verif_keys(&self) -> &Vec<GGSWCompressed<D>> {
+        &self.keys
+    }
+}
+
 impl<D: DataRef, BRA: BlindRotationAlgo> BlindRotationKeyInfos for BlindRotationKeyCompressed<D, BRA> {
     fn n_glwe(&self) -> Degree {
         self.n()
